@@ -210,7 +210,8 @@ Sig(r, s) ==
          ELSE IF r.after = "close_orderly" THEN "orderly_close_no_reconnect"
          ELSE "no_reconnect_after_" \o r.after
     [] r.ev = "attempt" ->
-         IF r.beh = "extra" THEN (IF s.i = s.nsteps /\ s.result # "none" THEN "retry_after_giving_up"
+         IF r.beh = "extra" THEN (IF s.i = s.nsteps /\ s.result = "Fatal" THEN "retry_after_nonretryable_error"
+                                  ELSE IF s.i = s.nsteps /\ s.result # "none" THEN "retry_after_giving_up"
                                   ELSE IF s.i = s.nsteps THEN "reconnect_while_connected" ELSE "unexpected_attempt")
          ELSE IF s.phase \in {"waiting", "connecting"} /\ r.t < s.lo THEN "attempt_too_early"
          ELSE IF s.phase \in {"waiting", "connecting"} /\ r.t > s.hi THEN "attempt_too_late"
